@@ -1930,6 +1930,15 @@ func TestC13(t *testing.T) {
 		// directory (one JSON/YAML file per namespace) that also contains a file
 		// that never parsed: another namespace manager behind the same handlers
 		opts := EnvOpts{Namespaces: cfg.toKeto()}
+		if idx%5 == 2 && cfgIsOPLRenderable(cfg) {
+			// every fifth batch: the same namespaces as an OPL document in strict mode
+			// (another namespace manager, and the engine's strict-mode branches)
+			text := (&renderStyle{FullParens: true}).render(cfg)
+			if _, errs := parseOPL(text); len(errs) == 0 {
+				opts = EnvOpts{OPL: text, Strict: true}
+				run.count("batches_on_opl_strict_mode", 1)
+			}
+		}
 		if idx%5 == 4 {
 			dir, derr := os.MkdirTemp(scratchDir(), "c13ns")
 			if derr == nil {
